@@ -35,11 +35,15 @@ def run_real(cases, repo_root="/repo", timeout=900):
 INTS = ["0", "7", "-3", "+5", "12", "007"]
 FLOATS = ["1.5", "-0.25", ".5", "5.", "1.3e9", "1.0E-3", "+2.50"]
 PLAINS = ["Foo", "/Path/To/123.txt", "A+/-B", "This is a string.", "two words", "007abc", "1.50x", "x1.5", "data_2.csv", "C:\\path\\to\\thing",
-          "a.b.c", "9lives now", "-dash start", "True", "e5"]
+          "a.b.c", "9lives now", "-dash start", "True", "e5",
+          # several words, the last one a number, after text that is not a bare identifier (one unquoted token on the pinned tree)
+          "/data/run 5", "v. 2.5", "50% of 10", "rev. B 12"]
 QSTRS = ["plain text", "", "with, delims: = ( ) [ ] #", 'say "hi"', "it's", "tab\there", "line\nbreak", "back\\slash", "caf\u00e9", "\u4e2d\u6587",
          "/Path/To/123.txt", "C:\\temp\\new.csv", " padded ", "ends with quote\"", "A+, \n", "\\", "emoji \U0001F600",
          # escapes together with characters outside Latin-1 (the decoding path of t_STRING sees both)
-         "\u0394 area\n(km\u00b2)", "\u4e2d\u6587\\path", "say \"\u03a9\"", "\U0001F600\ttab"]
+         "\u0394 area\n(km\u00b2)", "\u4e2d\u6587\\path", "say \"\u03a9\"", "\U0001F600\ttab",
+         # raw carriage returns inside the quotes (written as they are, not escaped): content, not layout
+         "raw\rcr", "raw\r\ncrlf", "\r"]
 
 
 def esc(content, q):
